@@ -33,6 +33,10 @@ def gen_case(seed: int, tier: str, index: int) -> Dict[str, Any]:
         plan.append({"op": rng.choice(CMDS), "dev": rng.randrange(8), "arg": rng.randrange(1 << 16),
                      "gap": rng.choice([0.0, 0.3, 1.0, 3.0, 10.0, 45.0]) if not long_history else rng.choice([0.0, 0.3, 1.0]),
                      "overlap": rng.random() < 0.1})
+        if rng.random() < 0.15:
+            # issue the command in the very moment one of the library's own periodic requests is in flight (it queues on the lock
+            # behind the facade's watercare poll / the refresh / a ping, whose stale answer is then processed first)
+            plan[-1]["sync"] = rng.choice(["GETWC", "GETWC", "STATU", "APING"])
     # make sure every on/off device is exercised from both states
     for d in range(4):
         plan += [{"op": "switch_on", "dev": d, "arg": 0, "gap": 0.5, "overlap": False}, {"op": "switch_on", "dev": d, "arg": 0, "gap": 0.5, "overlap": False},
@@ -92,11 +96,28 @@ async def scenario(world: WorldA) -> None:
         def spa_acc(tag: str):
             return model.structure.accessors[tag]
 
+        sent_verb: Dict[str, asyncio.Event] = {}
+
+        def tap(kind, rec) -> None:
+            if kind == "tx" and rec.src[0] != SPA_IP:
+                ev = sent_verb.get(rec.verb)
+                if ev is not None:
+                    ev.set()
+        world.net.taps.append(tap)
+
         for ci, op in enumerate(world.case["plan"]):
             if man.facade is not facade or not spa.is_connected:
                 raise HarnessError("connection was lost on a benign network")
             if op["gap"]:
                 await asyncio.sleep(op["gap"])
+            if op.get("sync"):
+                ev = sent_verb[op["sync"]] = asyncio.Event()
+                try:
+                    await asyncio.wait_for(ev.wait(), 125.0)
+                    res.probe("command_right_after_library_sent_" + op["sync"])
+                except asyncio.TimeoutError:
+                    res.probe("sync_verb_not_seen")
+                del sent_verb[op["sync"]]
             gate_closed = not spa.is_responding_to_pings
             if gate_closed:
                 res.probe("gate_closed_at_command")
